@@ -265,6 +265,28 @@ def run_harness(prop, tier, seed, scale, hot):
     return agg
 
 
+def purity_closure(specs):
+    """Functions reachable from `specs` (call graph of lean/.work/effects_report.json) that the effect
+    analysis does not accept."""
+    p = os.path.join(core.LEAN_DIR, '.work', 'effects_report.json')
+    try:
+        rep = json.load(open(p))
+    except Exception:       # noqa: no report (translator not run): nothing to say
+        return []
+    if rep.get('translator_failed'):
+        return ['<effect translator failed: %s>' % str(rep['translator_failed'])[:200]]
+    by = {f['name']: f for f in rep.get('functions', [])}
+    todo = [s_ for s_ in specs if s_ in by]
+    seen = set()
+    while todo:
+        f = todo.pop()
+        if f in seen:
+            continue
+        seen.add(f)
+        todo.extend(c for c in by[f].get('callees', []) if c in by and c not in seen)
+    return sorted(f for f in seen if not by[f].get('accepted', True))
+
+
 def match_known(failure, known, prop, mod):
     for k in known:
         if k.get('property') != prop:
@@ -331,6 +353,14 @@ def main():
         log(lean['log'])
         log('model driver could not be built')
         sys.exit(2)
+    # purity obligation: every per-call model assumes the modelled functions (and what they call) carry no
+    # hidden state; the effect analysis of C20 (tools/py2effects.py, regenerated from the current source) says
+    # which functions it accepts.  A rejected function in the call closure of this property's FUNCTIONS breaks
+    # the tie between the model and the code for this property.
+    impure = purity_closure(getattr(mod, 'FUNCTIONS', []))
+    if impure:
+        log('[T] purity: the effect analysis rejects %d function(s) reachable from the modelled code: %s' % (
+            len(impure), ', '.join(impure[:6])))
     fp = fingerprint.compare(getattr(mod, 'FUNCTIONS', []))
     hot = fp['hot']
     scale = 1.0
@@ -360,6 +390,10 @@ def main():
         broken.append({'theorems': lean['failed'], 'log': lean['log'][-1500:]})
     if agg['n_mism']:
         broken.append({'correspondence': agg['mism'][:5], 'count': agg['n_mism']})
+    if impure:
+        broken.append({'purity': impure[:20], 'why': 'functions in the call closure of the modelled code are not accepted '
+                       'by the effect analysis (hidden state / writes to arguments, globals or self in a non-mutator); '
+                       'the per-call model of this property assumes they are pure'})
     searched = False
     if broken and not new_fail:
         # failing-input search: a much larger exploration of the property's predicates on the implementation
